@@ -161,7 +161,11 @@ def _run_unit_job(args):
     try:
         node = repo.func(can.qual)
         tr = can.transformer()
-        mutated = mutate(node, tr)
+        try:
+            mutated = mutate(node, tr)
+        except Exception as e:          # the transformer does not find what it was written to change (edited function)
+            return (unit_name, canary_name, {'error': 'canary mutation did not apply (%s: %s)' % (e.__class__.__name__, e),
+                                             'obligations': {}})
         if ast.dump(mutated) == ast.dump(node):
             return (unit_name, canary_name, {'error': 'canary mutation did not apply', 'obligations': {}})
     except Unresolved as e:
